@@ -54,6 +54,27 @@ func c18Measure(cs c18Case) (allocs float64, bound float64, skipped bool) {
 		return dyn.AllocsPerRun(c18Runs, func() { b.SetSample(C*L-1, b.Sample(0)) }), 0, false
 	case "appendsample":
 		b := dyn.Alloc(d, al(C, 0, 4096))
+		if cs.Variant == 1 {
+			// an empty window over storage that still holds the (non-zero) samples of an earlier use
+			fb := full(b)
+			for i := 0; i < fb.Len(); i++ {
+				fb.SetSample(i, dyn.Tok(d, tk(int64(i+1))))
+			}
+			// (an allocation on every k-th call only is less than one per call and testing.AllocsPerRun
+			// truncates: count the allocations of 64 calls in a row instead; minimum of 3 windows)
+			best := uint64(1 << 30)
+			for k := 0; k < 3; k++ {
+				w := b.Slice(0, 0)
+				if m := dyn.MallocsDuring(func() {
+					for i := 0; i < 64; i++ {
+						w.AppendSample(one)
+					}
+				}); m < best {
+					best = m
+				}
+			}
+			return float64(best), 0, false
+		}
 		return dyn.AllocsPerRun(c18Runs, func() { b.AppendSample(one) }), 0, false
 	case "appendsample-full":
 		b := mkBuf(d, L)
@@ -283,6 +304,9 @@ func init() {
 								}
 
 								cases = append(cases, c18Case{Op: op, S: tn(t), D: tn(t), C: C, L: L, Spare: spare})
+								if op == "appendsample" {
+									cases = append(cases, c18Case{Op: op, S: tn(t), D: tn(t), C: C, L: L, Variant: 1})
+								}
 								if op == "channel" && !spare {
 									cases = append(cases, c18Case{Op: op, S: tn(t), D: tn(t), C: C, L: L, Variant: 1})
 								}
